@@ -96,7 +96,7 @@ def arbitrary_state(ex, P, g, kind, lock="free", lazy=False):
     if lazy:
         return arbitrary_state_lazy(ex, P, g, kind, lock)
     P._retry = ex.fresh_int("_retry")
-    P._transport = opt(ex, "transport?", lambda: ex.new_object(GTransport(kind, ex.fresh_bool("closing"))))
+    P._transport = opt(ex, "transport?", lambda: ex.new_object(GTransport(kind, ex.fresh_bool("closing"), g.loop)))
     st = ex.fresh_int("fstate")
     ex.assume(mk_bool(z3.And(st.t >= 0, st.t <= 3)))
     P.response_future = opt(ex, "future?", lambda: ex.new_object(GFuture(st)))
@@ -126,7 +126,8 @@ def arbitrary_state(ex, P, g, kind, lock="free", lazy=False):
 def arbitrary_state_lazy(ex, P, g, kind, lock):
     P._retry = ex.fresh_int("_retry")
     k = ex.choose(3, tag="transport")
-    P._transport = None if k == 0 else ex.new_object(GTransport(kind, k == 2))
+    old_loop = aio_env.GLoop("previous") if lock == "stale_loop" else g.loop
+    P._transport = None if k == 0 else ex.new_object(GTransport(kind, k == 2, old_loop))
     g.open = [P._transport] if k == 1 else []
     st = ex.fresh_int("fstate")
     ex.assume(mk_bool(z3.And(st.t >= 0, st.t <= 3)))
@@ -141,12 +142,49 @@ def arbitrary_state_lazy(ex, P, g, kind, lock):
     if lock == "none":
         P._lock = None
         P._running_loop = None
+    elif lock == "stale_loop":
+        # the object was last used from another event loop (successive asyncio.run calls)
+        P._lock = ex.new_object(GLock(False, 0))
+        P._running_loop = old_loop
+    elif lock == "other":
+        P._lock = ex.new_object(GLock(True, 2))          # a request of another task is in flight
     else:
         P._lock = ex.new_object(GLock(lock == "mine", g.me if lock == "mine" else 0))
     g.tx = ex.fresh_int("tx")
     g.armed = ex.fresh_int("armed_count")
     for name, c in invariant(ex, P, g):
         ex.assume(c)
+
+
+def tx_obligations(ex, transport, payload):
+    """checked at every transmission"""
+    g = pg(ex)
+    P = g.proto
+    cleared = P._partial_data is None and (P._partial_missing == 0 if isinstance(P._partial_missing, int)
+                                           else ex.known(iterm(P._partial_missing) == 0))
+    ex.check("C07_fragment_state_cleared_for_every_transmission", bool(cleared))
+    ex.check("C10_transmission_uses_a_transport_of_the_running_loop", transport.loop is g.loop)
+    lk = P._lock
+    mine = lk is not None and lk.owner == g.me and (lk.is_locked is True or (
+        not isinstance(lk.is_locked, bool) and ex.known(bterm(lk.is_locked))))
+    ex.check("C06_transmission_only_while_holding_the_lock", bool(mine))
+
+
+def timer_obligations(ex, P, g, evs, old_timer):
+    """every timeout armed in this segment is the one the object remembers (or was cancelled again): otherwise nobody
+    can cancel it and it ends a later attempt early"""
+    for e in evs:
+        if e[0] == "call_later":
+            h = e[3]
+            ok = h is P._timer or h.armed is False
+            ex.check("C05_C06_armed_timer_is_remembered", bool(ok))
+
+
+def lock_obligations(ex, g):
+    for e in g.lock_events:
+        if e[0] == "release":
+            ex.check("C06_lock_released_only_by_its_holder", e[2] == e[3] or e[2] == 0 and False,
+                     detail=f"lock held by task {e[2]} released by task {e[3]}")
 
 
 def invariant(ex, P, g):
@@ -248,6 +286,7 @@ def callback_segment(ex, kind, which):
         return
     evs = g.events[ev0:]
     check_inv_tagged(ex, P, g)
+    timer_obligations(ex, P, g, evs, None)
     # frame: what a callback must leave alone
     got_result = any(e[0] == "set_result" for e in evs)
     same_retry = ex.compare(_EQ, P._retry, retry0)
@@ -315,6 +354,9 @@ def rely(ex, what):
     kind = "udp" if type(P).__name__.startswith("Udp") else "tcp"
     for name, c in invariant(ex, P, g):
         ex.check(f"{tag_of(name)}_{name}_before_suspension", c)
+    start = getattr(g, "seg_start", 0)
+    timer_obligations(ex, P, g, g.events[start:], None)       # per atomic segment
+    g.seg_start = len(g.events)
     # timers, fragments, transport, future state, armed count
     P._timer = lazy_timer(ex, P)
     P._partial_data = MaybeBytes(ex.fresh_bool("partial_present"))
@@ -352,16 +394,18 @@ def rely(ex, what):
         ex.assume(c)
 
 
-def send_request_segment(ex, kind, case=None):
+def send_request_segment(ex, kind, case=None, entry=None):
     """the body of send_request from an arbitrary invariant state with the lock free, single caller.  `case` splits
     the unit by the shape of the entry state (lock created or not, transport none/open/closing, future bound or not)"""
     from goodwe.exceptions import RequestRejectedException, MaxRetriesException
     if case is not None:
         ex.forced = {"lock?": case % 2, "transport": (case // 2) % 3, "future?": (case // 6) % 2}
     P, g = make_proto(ex, kind)
-    arbitrary_state(ex, P, g, kind, lock=("none", "free")[ex.choose(2, tag="lock?")], lazy=True)
+    lockmode = ("none", "free", "stale_loop")[ex.choose(2, tag="lock?")] if entry is None else entry
+    arbitrary_state(ex, P, g, kind, lock=lockmode, lazy=True)
     ex.unit = f"{type(P).__name__}.send_request"
     g.suspensions.append(rely)
+    g.on_tx.append(tx_obligations)
     cmd = make_command(ex, "newcmd")
     # requires (single requesting task): the previous request on this object has finished
     if P.response_future is not None:
@@ -375,6 +419,18 @@ def send_request_segment(ex, kind, case=None):
         result = run_coro(ex, P.send_request, cmd)
     except PyRaise as pr:
         raised = pr.exc
+    lock_obligations(ex, g)
+    timer_obligations(ex, P, g, g.events[getattr(g, "seg_start", 0):], None)
+    if entry == "other":
+        # cancelled while queued behind another task's request: that request must not be disturbed
+        lk = P._lock
+        still = lk is not None and lk.owner == 2 and lk.is_locked is True
+        cancelled_queued = any(t == "cancelled.while.queued" and c == 1 for t, c in zip(ex.tags, ex.trace))
+        if cancelled_queued:
+            ex.check("C06_queued_caller_leaves_the_holders_lock_alone", bool(still))
+            ex.check("C06_queued_caller_does_not_transmit", ex.compare(_EQ, g.tx, tx0))
+            return
+        raise interp.PathEnd()       # the lock was obtained after the holder finished: covered by the other entries
     # ---- every exit
     ex.check("C05_retry_budget_restored_on_every_exit", ex.compare(_EQ, P._retry, 0),
              detail=f"exit with _retry={P._retry}; " + ("returned" if raised is None else f"raised {type(raised).__name__}"))
@@ -427,6 +483,7 @@ def execute_segment(ex, kind):
     arbitrary_state(ex, P, g, kind, lock="free", lazy=True)
     ex.unit = f"execute@{type(P).__name__}"
     g.suspensions.append(rely)
+    g.on_tx.append(tx_obligations)
     cmd = make_command(ex, "newcmd")
     if P.response_future is not None:
         ex.assume(mk_bool(iterm(P.response_future.state) != PENDING))     # previous request finished
